@@ -16,7 +16,15 @@ FIELDS = {
     'TrackFragmentHeaderBox': ['track_id', 'base_data_offset', 'sample_description_index', 'default_sample_duration',
                                'default_sample_size', 'default_sample_flags'],
 }
-FOURCC = {'MovieFragmentHeaderBox': 'mfhd', 'MovieExtendsHeaderBox': 'mehd', 'TrackExtendsBox': 'trex',
+FIELDS.update({
+    'TrackEncryptionBox': ['is_encrypted', 'iv_size'],
+    'MediaHeaderBox': ['timescale', 'duration'],
+    'EventMessageBox': ['timescale', 'presentation_time_delta', 'presentation_time', 'event_duration', 'event_id'],
+    'ContentProtectionSpecificBox': [],
+})
+EMSG_SCHEME, EMSG_VALUE = 'urn:scte:scte35:2014:xml+bin', '5'
+FOURCC = {'ContentProtectionSpecificBox': 'pssh', 'TrackEncryptionBox': 'tenc', 'MediaHeaderBox': 'mdhd', 'EventMessageBox': 'emsg',
+          'MovieFragmentHeaderBox': 'mfhd', 'MovieExtendsHeaderBox': 'mehd', 'TrackExtendsBox': 'trex',
           'TrackFragmentDecodeTimeBox': 'tfdt', 'TrackFragmentHeaderBox': 'tfhd', 'TrackFragmentRunBox': 'trun'}
 
 
@@ -77,10 +85,46 @@ def build(key, variant, i):
             dest.src = io.BytesIO(dest.getvalue())
             return cls.parse(dest.src, None, options=mp4.Options(), initial_data={})
         return {'env': env, 'old_env': old, 'call': call2}
+    payload = variant.endswith('+payload')
+    parts = variant.split('+')
+    variant = parts[0]
     cls = getattr(mp4, variant)
     kw = {f: int(i[f]) for f in FIELDS[variant] if f in i}
+    extra_env = {}
     if variant == 'TrackFragmentRunBox':
         kw.update(sample_count=0, samples=[])
+    if variant == 'TrackEncryptionBox':
+        from dashlive.utils.binary import HexBinary
+        kw['default_kid'] = HexBinary(None)
+        kw['default_kid'].data = int(i['default_kid']).to_bytes(16, 'big') if 0 <= int(i['default_kid']) < 2 ** 128 else b''
+        extra_env['default_kid'] = int(i['default_kid'])
+    if variant == 'MediaHeaderBox':
+        import datetime
+        from dashlive.utils.date_time import ISO_EPOCH
+        for f in ('creation', 'modification'):
+            extra_env[f + '_s'] = int(i[f + '_s'])
+            try:
+                kw[f + '_time'] = ISO_EPOCH + datetime.timedelta(seconds=int(i[f + '_s']))
+            except OverflowError:
+                kw[f + '_time'] = ISO_EPOCH
+        kw['language'] = 'und'
+    if variant == 'ContentProtectionSpecificBox':
+        from dashlive.utils.binary import Binary, HexBinary
+        nk = int(parts[1][0])
+
+        def raw(cls, name, n):
+            b = cls(None)
+            v = int(i[name])
+            b.data = v.to_bytes(n, 'big') if 0 <= v < 256 ** n else b''
+            extra_env[name] = v
+            return b
+        kw.update(system_id=raw(HexBinary, 'system_id', 16), key_ids=[raw(HexBinary, f'kid{k}', 16) for k in range(nk)],
+                  data=raw(Binary, 'payload', 7) if 'data' in parts else None)
+        extra_env['payload'] = int(i['payload'])
+    if variant == 'EventMessageBox':
+        kw.update(scheme_id_uri=EMSG_SCHEME, value=EMSG_VALUE,
+                  data=int(i['payload']).to_bytes(7, 'big') if payload and 0 <= int(i['payload']) < 256 ** 7 else None)
+        extra_env['payload'] = int(i['payload'])
     box = cls(atom_type=FOURCC[variant], position=0, size=0, version=int(i['version']), flags=int(i['flags']), **kw)
     moof = NS(position=int(i.get('moof_position', 0)))
     parent = NS(find_atom=lambda name: moof, tfhd=None)
@@ -88,11 +132,15 @@ def build(key, variant, i):
         box.find_atom = lambda name: moof
     dest = Stream()
     env = {'self': box, 'dest': dest, 'moof_position': moof.position,
-           'consumed': lambda d: d.src.tell() == len(d.getvalue()), 'nbytes': lambda d: len(d.getvalue())}
-    old = {'self': NS(**{f: getattr(box, f, None) for f in ['version', 'flags'] + FIELDS[variant]})}
+           'consumed': lambda d: d.src.tell() == len(d.getvalue()), 'nbytes': lambda d: len(d.getvalue()),
+           'bytes_value': lambda b: int.from_bytes(bytes(getattr(b, 'data', b)), 'big') if isinstance(getattr(b, 'data', b), (bytes, bytearray)) else -1,
+           'is_unset': lambda x: x is None}
+    env.update(extra_env)
+    old = {'self': NS(**{f: getattr(box, f, None) for f in ['version', 'flags', 'creation_time', 'modification_time'] + FIELDS[variant]})}
 
     def call():
         box.encode_fields(dest)
         dest.src = io.BytesIO(dest.getvalue())
-        return cls.parse(dest.src, parent, options=mp4.Options(), initial_data={})
+        return cls.parse(dest.src, parent, options=mp4.Options(), initial_data={'position': 0, 'size': len(dest.getvalue())})
+    old.update(extra_env)
     return {'env': env, 'old_env': old, 'call': call}
